@@ -283,10 +283,14 @@ func (ek *EAPOLKey) SerializeTo(b gopacket.SerializeBuffer, opts gopacket.Serial
 	binary.BigEndian.PutUint16(buf[3:5], ek.KeyLength)
 	binary.BigEndian.PutUint64(buf[5:13], ek.ReplayCounter)
 
+	// Nonce, IV and MIC may be unset or shorter than their fields, the rest
+	// of each field is zero.
+	clear(buf[13:61])
 	copy(buf[13:45], ek.Nonce)
 	copy(buf[45:61], ek.IV)
 	binary.BigEndian.PutUint64(buf[61:69], ek.RSC)
 	binary.BigEndian.PutUint64(buf[69:77], ek.ID)
+	clear(buf[77:93])
 	copy(buf[77:93], ek.MIC)
 
 	binary.BigEndian.PutUint16(buf[93:95], ek.KeyDataLength)
